@@ -41,6 +41,7 @@ Cond == [o |-> "cond", k |-> ncond]
 
 AOp    == ~dead /\ Room(1) /\ nop < 4 /\ Add(<<[o |-> "op", k |-> nop]>>, stk, FALSE, 1, 0)
 ABlock == ~dead /\ Room(2) /\ Depth < MaxDepth /\ Add(<<[o |-> "block", r |-> 0]>>, Append(stk, "block"), FALSE, 0, 0)
+ATry   == ~dead /\ Room(2) /\ Depth < MaxDepth /\ Add(<<[o |-> "try", r |-> 0]>>, Append(stk, "block"), FALSE, 0, 0)
 ALoop  == ~dead /\ Room(2) /\ Depth < MaxDepth /\ Add(<<[o |-> "loop", r |-> 0]>>, Append(stk, "loop"), FALSE, 0, 0)
 AIf    == ~dead /\ Room(3) /\ Depth < MaxDepth /\ ncond < 3
           /\ Add(<<Cond, [o |-> "if", r |-> 0]>>, Append(stk, "if"), FALSE, 0, 1)
@@ -73,6 +74,7 @@ Targets(i) == TargetKinds(body, i)
 
 ModesAt(i) ==
     LET o == body[i].o IN
+    IF o = "try" THEN {} ELSE
     {"before", "after"}
     \* replacing/removing the function's final end is accepted but must have no effect (C15)
     \cup (IF o \in {"op", "nop"} \/ i = Len(body) THEN {"alternate", "empty_alternate"} ELSE {})
@@ -80,7 +82,7 @@ ModesAt(i) ==
     \* removing an `if` without consuming its condition is a misuse (invalid by the caller's doing)
     \cup (IF o \in {"block", "loop", "else"} THEN {"empty_block_alt"} ELSE {})
     \cup (IF o \in {"block", "if", "else"} THEN {"semantic_after"} ELSE {})
-    \cup (IF o \in {"br", "br_if", "br_table"} /\ "loop" \notin Targets(i) THEN {"semantic_after"} ELSE {})
+    \cup (IF o \in {"br", "br_if", "br_table"} /\ "loop" \notin Targets(i) /\ "try" \notin Targets(i) THEN {"semantic_after"} ELSE {})
 
 CodeFor(p, i, mode) ==
     IF mode \in {"empty_alternate", "empty_block_alt"} THEN <<>>
@@ -131,7 +133,7 @@ APlan2 ==
          /\ plan' = Append(plan, e)
     /\ UNCHANGED <<body, stk, dead, nop, ncond, done>>
 
-Next == AOp \/ ABlock \/ ALoop \/ AIf \/ AElse \/ AEnd \/ ABr \/ ABrIf \/ ABrTable \/ ARet \/ AUnr
+Next == AOp \/ ABlock \/ ATry \/ ALoop \/ AIf \/ AElse \/ AEnd \/ ABr \/ ABrIf \/ ABrTable \/ ARet \/ AUnr
         \/ AFinish \/ APlan1 \/ APlan2
 Spec == Init /\ [][Next]_vars
 
